@@ -279,10 +279,26 @@ type HOpt struct {
 	} `json:"n"`
 	Z int64 `json:"z"`
 }
+
+// unregistered look-alikes of registered types (same fields, same underlying type): nothing but the registered type
+// itself is governed by a registration
+type CPointTwin struct{ X, Y int64 }
+type CCelsiusTwin struct{ V float64 }
+type COptTwin struct {
+	V     int64
+	Valid bool
+}
+type CEmailTwin string
+
 type HNone struct {
-	A CPlain   `json:"a"`
-	B []CPlain `json:"b"`
-	C string   `json:"c"`
+	A  CPlain              `json:"a"`
+	B  []CPlain            `json:"b"`
+	C  string              `json:"c"`
+	T  CPointTwin          `json:"t"`
+	PT *CPointTwin         `json:"pt"`
+	LT []CCelsiusTwin      `json:"lt"`
+	MT map[string]COptTwin `json:"mt"`
+	ET CEmailTwin          `json:"et"`
 }
 
 func holderValues(c *driverCtx) []reflect.Value {
@@ -297,7 +313,7 @@ func holderValues(c *driverCtx) []reflect.Value {
 	hc := HCelsius{F: CCelsius{1.5}, P: &pc, L: []CCelsius{{2}, {3}}, M: map[string]CCelsius{"a": {4}}, O: CCelsius{5}, Q: []*CCelsius{&pc, nil, &pc}, D: 6}
 	hc2 := HCelsius{}
 	ht := HTags{F: CTags{"a", "b"}, P: &pt, L: []CTags{{"x"}, nil}, M: map[string]CTags{"m": {"y", "z"}}, Z: []string{"plain"}}
-	hn := HNone{A: "a", B: []CPlain{"b1", "b2"}, C: "c"}
+	hn := HNone{A: "a", B: []CPlain{"b1", "b2"}, C: "c", T: CPointTwin{1, 2}, PT: &CPointTwin{3, 4}, LT: []CCelsiusTwin{{1.5}, {0}}, MT: map[string]COptTwin{"a": {5, true}, "b": {0, false}}, ET: "twin@x"}
 	pp := CPoint{7, -8}
 	hp := HPoint{F: CPoint{1, 2}, P: &pp, L: []CPoint{{3, 4}}, M: map[string]CPoint{"k": {5, 6}}, LP: []*CPoint{&pp, nil}}
 	hp.N.PP = &pp
